@@ -27,6 +27,7 @@ import (
 	"flag"
 	"fmt"
 	"io"
+	"log"
 	"net"
 	"os"
 	"os/exec"
@@ -138,7 +139,7 @@ func snapshot() map[int64]ginfo {
 // class of a parked goroutine; "" = not (yet) parked on something only another goroutine can undo
 func blockedClass(st string) string {
 	switch {
-	case st == "sync.Mutex.Lock" || st == "semacquire" || st == "sync.RWMutex.Lock" || st == "sync.RWMutex.RLock":
+	case st == "sync.Mutex.Lock" || st == "sync.RWMutex.Lock" || st == "sync.RWMutex.RLock":
 		return "mutex"
 	case strings.HasPrefix(st, "chan send"):
 		return "send"
@@ -147,7 +148,10 @@ func blockedClass(st string) string {
 	case st == "sync.Cond.Wait" || st == "sync.WaitGroup.Wait":
 		return "wait"
 	}
-	return "" // running, runnable, syscall, sleep, IO wait, select (may hide a timer): not settled
+	// running, runnable, syscall, sleep, IO wait, select (may hide a timer): not settled. Plain "semacquire"
+	// is also not settled: a goroutine that wants to start a GC cycle parks on the runtime's world semaphore
+	// while runtime.Stack(all) holds it, and resumes by itself.
+	return ""
 }
 
 // ------------------------------------------------------------------ gates
@@ -312,9 +316,9 @@ type counted struct {
 	name  string
 }
 
-func (c *counted) Abort(i distsys.ArchetypeInterface) chan struct{}   { return c.inner.Abort(i) }
-func (c *counted) PreCommit(i distsys.ArchetypeInterface) chan error  { return c.inner.PreCommit(i) }
-func (c *counted) Commit(i distsys.ArchetypeInterface) chan struct{}  { return c.inner.Commit(i) }
+func (c *counted) Abort(i distsys.ArchetypeInterface) chan struct{}  { return c.inner.Abort(i) }
+func (c *counted) PreCommit(i distsys.ArchetypeInterface) chan error { return c.inner.PreCommit(i) }
+func (c *counted) Commit(i distsys.ArchetypeInterface) chan struct{} { return c.inner.Commit(i) }
 func (c *counted) ReadValue(i distsys.ArchetypeInterface) (tla.Value, error) {
 	return c.inner.ReadValue(i)
 }
@@ -354,6 +358,7 @@ func (g *gateCounter) BeginCriticalSection(pc string) {
 	}
 	h.launchStops("begin", int(n))
 	h.gateB.wait()
+	h.yield()
 }
 func (g *gateCounter) NextFairnessCounter(id string, c uint) uint {
 	return g.inner.NextFairnessCounter(id, c)
@@ -367,6 +372,7 @@ func (h *harness) body(iface distsys.ArchetypeInterface) error {
 	r := h.runIndex()
 	emit(rec{"e": "enter", "r": r})
 	kind := h.gateBody.wait()
+	h.yield()
 	fin := func(err error) error {
 		emit(rec{"e": "secend", "r": r, "kind": kind})
 		return err
@@ -448,6 +454,15 @@ func (h *harness) body(iface distsys.ArchetypeInterface) error {
 		return fin(fmt.Errorf("%w: (x) = (0)", distsys.ErrAssertionFailed))
 	}
 	return fin(iface.Goto("A.loop"))
+}
+
+// free mode: give the goroutines the run has just launched a chance to overlap with it
+func (h *harness) yield() {
+	if !h.proto {
+		for i := 0; i < 3; i++ {
+			runtime.Gosched()
+		}
+	}
 }
 
 func (h *harness) hasRes(name string) bool {
@@ -789,6 +804,7 @@ func (h *harness) settle() {
 		h.beginsAfter.Store(0)
 	}
 	rv := []string{}
+	rw := []string{}
 	for _, th := range runs {
 		if th.returned.Load() {
 			rv = append(rv, "ret")
@@ -804,9 +820,10 @@ func (h *harness) settle() {
 			rv = append(rv, "gateC")
 		default:
 			rv = append(rv, blockedClass(g.status))
+			rw = append(rw, g.status+"@"+site(g))
 		}
 	}
-	emit(rec{"e": "obs", "s": sv, "r": rv})
+	emit(rec{"e": "obs", "s": sv, "r": rv, "rwhere": rw})
 }
 
 func inFrames(g ginfo, s string) bool {
@@ -1044,6 +1061,7 @@ func main() {
 	case "sup":
 		supervise(*casesF, *outF, len(cases))
 	case "child":
+		log.SetOutput(io.Discard)
 		for i := *from; i < len(cases); i++ {
 			fmt.Printf("CASE %d\n", i)
 			runCase(cases[i])
